@@ -74,7 +74,8 @@ def run(facts, rep):
                     t = strip(e.term)
                     if t[0] == 'call' and len(t) > 3 and t[3] in looked and looked[t[3]][0] == 'contains_key' and e.value == 0:
                         absent.add(looked[t[3]][1:])
-                    if t[0] == 'discr' and strip(t[1])[0] == 'call' and len(strip(t[1])) > 3 and strip(t[1])[3] in looked and looked[strip(t[1])[3]][0] in ('get', 'get_mut') and e.value == 0:
+                    none_ = e.value == 0 or (e.value == 'else' and tuple(e.args or ()) == (1,))      # Option: 0 = None, 1 = Some
+                    if t[0] == 'discr' and strip(t[1])[0] == 'call' and len(strip(t[1])) > 3 and strip(t[1])[3] in looked and looked[strip(t[1])[3]][0] in ('get', 'get_mut') and none_:
                         absent.add(looked[strip(t[1])[3]][1:])
         if seen_here:
             rep.saw(b)
